@@ -20,6 +20,10 @@ def units(tier, seed):
     inst = families.instances(("x", "y") if tier == "quick" else ("x", "y", "z"))
     for part in chunks([s for _, s in inst], 48):
         us.append(dict(kind="sources", sources=part, transformer="simplify", N=N, label="family"))
+    # the same families with binders that are spelled like the names the simplifier makes up (arg_0, arg_1), its counter starting at 0 as in a fresh process
+    inst2 = families.instances(("arg_0", "arg_1"))
+    for part in chunks([s for _, s in inst2], 16):
+        us.append(dict(kind="sources", sources=part, transformer="simplify_fresh", N=N, label="family/generated-looking names"))
     # (i) generic grammar, exhaustive under a decision bound, two stages, both naming schemes
     mp = 12 if tier == "quick" else 14
     for a in range(3):
